@@ -148,3 +148,36 @@ fn __verif_n_c04_trace_cost_covered() {
         Some((input, why)) => println!("VERIF-N id=N/n_c04_entry_cost/trace_cost_covered status=fail key=\"{}\" input=\"{input}\" detail=\"{input}: {}\" bound=\"{bound}\"", why.replace('"', "'"), why.replace('"', "'")),
     }
 }
+
+/// `initialize_vm` writes the run-time price table that compiled `withdraw_gas` / `redeposit_gas`
+/// code reads through `get_builtin_costs`. Contract (the layout the compiled code assumes, written
+/// here as data, not taken from the code): slot 0 Pedersen, 1 Bitwise, 2 EcOp, 3 Poseidon,
+/// 4 AddMod, 5 MulMod, 6 Blake, each holding the published price; the cell after the program holds
+/// the pointer to the table. Exhaustive over the 7 slots.
+#[test]
+fn __verif_n_c04_builtin_cost_table() {
+    use cairo_vm::types::relocatable::Relocatable;
+    use cairo_vm::vm::vm_core::VirtualMachine;
+    std::panic::set_hook(Box::new(|_| {}));
+    let want: [(usize, usize, &str); 7] = [(0, 4050, "Pedersen"), (1, 583, "Bitwise"), (2, 4085, "EcOp"), (3, 491, "Poseidon"), (4, 230, "AddMod"), (5, 604, "MulMod"), (6, 3334, "Blake")];
+    let r = catch_unwind(AssertUnwindSafe(|| -> Option<String> {
+        let mut vm = VirtualMachine::new(false, false);
+        let prog = vm.add_memory_segment();
+        let data_len = 5usize;
+        if crate::initialize_vm(&mut vm, data_len).is_err() { return Some("initialize_vm failed".into()); }
+        let table = match vm.get_relocatable(Relocatable { segment_index: prog.segment_index, offset: data_len }) { Ok(t) => t, Err(_) => return Some("no pointer to the builtin cost table after the program".into()) };
+        for (slot, price, name) in want {
+            match vm.get_integer(Relocatable { segment_index: table.segment_index, offset: table.offset + slot }) {
+                Ok(v) if *v == Felt252::from(price) => {}
+                Ok(v) => return Some(format!("slot {slot} ({name}) holds {} instead of the published price {price}", *v)),
+                Err(_) => return Some(format!("slot {slot} ({name}) is not initialised")),
+            }
+        }
+        None
+    }));
+    let why = match r { Err(_) => Some("panic".to_string()), Ok(w) => w };
+    match why {
+        None => println!("VERIF-N id=N/n_c04_entry_cost/builtin_cost_table status=ok cases=7 distinct=7 bound=\"all 7 slots of the run-time builtin price table (exhaustive)\""),
+        Some(w) => println!("VERIF-N id=N/n_c04_entry_cost/builtin_cost_table status=fail key=\"{}\" input=\"initialize_vm(vm, 5)\" detail=\"{}\" bound=\"all 7 slots\"", w.replace('"', "'"), w.replace('"', "'")),
+    }
+}
